@@ -97,12 +97,14 @@ inline size_t ConcurrentExecutionQueue<T, S>::size() const noexcept {
 template <typename T, typename S>
 inline int ConcurrentExecutionQueue<T, S>::execute(T&& value) noexcept {
   _queue.template push<true, false, false>(::std::move(value));
+  BABYLON_VERIF_POINT("eq:pushed_before_signal");
   return signal_push_event();
 }
 
 template <typename T, typename S>
 inline int ConcurrentExecutionQueue<T, S>::execute(const T& value) noexcept {
   _queue.template push<true, false, false>(value);
+  BABYLON_VERIF_POINT("eq:pushed_before_signal");
   return signal_push_event();
 }
 
@@ -119,6 +121,7 @@ inline int ConcurrentExecutionQueue<T, S>::signal_push_event() noexcept {
     return 0;
   }
 
+  BABYLON_VERIF_POINT("eq:launching");
   return start_consumer();
 }
 
@@ -131,6 +134,7 @@ int ConcurrentExecutionQueue<T, S>::start_consumer() noexcept {
     if (ret == 0) {
       return 0;
     }
+    BABYLON_VERIF_POINT("eq:submit_failed");
   } while (
       !_events.compare_exchange_strong(events, 0, ::std::memory_order_acq_rel));
   return -1;
@@ -142,6 +146,9 @@ void ConcurrentExecutionQueue<T, S>::consume_until_empty() noexcept {
   while (true) {
     auto poped = _queue.template try_pop_n<false, false>(_consume_function,
                                                          _queue.capacity());
+    if (poped == 0) {
+      BABYLON_VERIF_POINT("eq:empty_before_cas");
+    }
     if (poped != 0) {
       events = _events.load(::std::memory_order_acquire);
     } else if (_events.compare_exchange_strong(events, 0,
